@@ -20,6 +20,7 @@ import (
 	"strconv"
 	"strings"
 	"sync"
+	"syscall"
 	"time"
 )
 
@@ -436,7 +437,40 @@ func tail(s string, n int) string {
 	return s
 }
 
+// acquireSlot takes one of a fixed number of machine-wide slots (flock on
+// files under /tmp/verif-slots) so that several concurrent ./check runs do
+// not oversubscribe the CPUs. It returns a release function.
+func acquireSlot() func() {
+	if os.Getenv("VERIF_NOSLOTS") != "" {
+		return func() {}
+	}
+	dir := "/tmp/verif-slots"
+	if os.MkdirAll(dir, 0o777) != nil {
+		return func() {}
+	}
+	const slots = 20
+	start := time.Now()
+	for {
+		for i := 0; i < slots; i++ {
+			f, err := os.OpenFile(filepath.Join(dir, fmt.Sprintf("slot%d", (i+os.Getpid())%slots)), os.O_CREATE|os.O_RDWR, 0o666)
+			if err != nil {
+				continue
+			}
+			if syscall.Flock(int(f.Fd()), syscall.LOCK_EX|syscall.LOCK_NB) == nil {
+				return func() { syscall.Flock(int(f.Fd()), syscall.LOCK_UN); f.Close() }
+			}
+			f.Close()
+		}
+		if time.Since(start) > 45*time.Minute {
+			return func() {} // give up waiting rather than stall forever
+		}
+		time.Sleep(300 * time.Millisecond)
+	}
+}
+
 func runShard(bin, dir, id, tier string, k, nsh int, seed uint64, out, replay string, timeout time.Duration, memKB int64) (int, string) {
+	release := acquireSlot()
+	defer release()
 	ctx, cancel := context.WithTimeout(context.Background(), timeout+2*time.Minute)
 	defer cancel()
 	sh := fmt.Sprintf("ulimit -v %d 2>/dev/null; exec %q -test.run '^TestCheck$' -test.timeout %s -test.count 1", memKB, bin, timeout)
